@@ -448,7 +448,7 @@ def o_cond(c, kinds, sigma):
     if k == "type":
         m = sigma[c[1]]
         t = o_acc(c[2], m, c[3])
-        upd = {c[1]: c[2]} if (t and m == "Any" and c[2] not in ("Any", "object")) else {}
+        upd = {c[1]: c[2]} if (t and m == "Any" and c[2] != "Any") else {}
         return t, upd, {}
     if k == "cmp":
         r = o_acc(c[3], sigma[c[1]], True)
@@ -818,7 +818,7 @@ def run(tier: str, replay: str | None = None):
         cases = [{"params": c["params"], "ret": c["ret"], "body": c["body"], "calls": [c["call"]] if "call" in c else c["calls"]}]
     else:
         cases = [dict(c) for c in load_corpus()]
-        n = 500 if tier == "quick" else 5000
+        n = 1400 if tier == "quick" else 9000
         for _ in range(n):
             cases.append(gen_case(rng, 6))
     # add the member calls of every one-union call (oracle (b))
